@@ -8,17 +8,18 @@ open Model.TMutex
 
 /-! ## Tie to the source: the synchronisation skeleton of each method, regenerated on every run -/
 
-def expect_Init : List String := ["assign[m v]", "call[make(,1)]", "assign[m ch]"]
+def expect_Init : List String :=
+  ["assign[v0 v]", "call[make(,1)]", "assign[v0 ch]"]
 def expect_Lock : List String :=
-  ["if[(==) atomic AddInt32 & m v - 1 0]", "call[atomic AddInt32(& m v,- 1)]", "then", "ret[]", "fi", "for",
-   "if[(&&) (>=) v 0 (==) atomic SwapInt32 & m v - 1 1]", "call[atomic LoadInt32(& m v)]", "assign[v]",
-   "call[atomic SwapInt32(& m v,- 1)]", "then", "ret[]", "fi", "recv[m ch]", "rof"]
+  ["if[(==) atomic AddInt32 & v0 v - 1 0]", "call[atomic AddInt32(& v0 v,- 1)]", "then", "ret[]", "fi", "for",
+   "if[(&&) (>=) v1 0 (==) atomic SwapInt32 & v0 v - 1 1]", "call[atomic LoadInt32(& v0 v)]", "assign[v1]",
+   "call[atomic SwapInt32(& v0 v,- 1)]", "then", "ret[]", "fi", "recv[v0 ch]", "rof"]
 def expect_TryLock : List String :=
-  ["call[atomic LoadInt32(& m v)]", "assign[v]", "if[(<=) v 0]", "then", "ret[false]", "fi",
-   "call[atomic CompareAndSwapInt32(& m v,1,0)]", "ret[atomic CompareAndSwapInt32 & m v 1 0]"]
+  ["call[atomic LoadInt32(& v0 v)]", "assign[v1]", "if[(<=) v1 0]", "then", "ret[false]", "fi",
+   "call[atomic CompareAndSwapInt32(& v0 v,1,0)]", "ret[atomic CompareAndSwapInt32 & v0 v 1 0]"]
 def expect_Unlock : List String :=
-  ["if[(==) atomic SwapInt32 & m v 1 0]", "call[atomic SwapInt32(& m v,1)]", "then", "ret[]", "fi", "select",
-   "send[m ch]", "default", "tceles"]
+  ["if[(==) atomic SwapInt32 & v0 v 1 0]", "call[atomic SwapInt32(& v0 v,1)]", "then", "ret[]", "fi", "select",
+   "send[v0 ch]", "default", "tceles"]
 
 /-- the atomic-operation skeleton the model was written against is the one the code has now
     (operations, operands, comparison constants, control structure, channel capacity) -/
